@@ -57,7 +57,9 @@ func c12accept(p *Prog, r *Report) {
 		isFH := func(v ssa.Value) bool {
 			return (flowsFromCall(v, named(HG+".Block.FrameHash"), 0) || flowsFromField(v, "FrameHash")) && depOnParamType(v, "Block")
 		}
-		isH := func(v ssa.Value) bool { return flowsFromCall(v, named(HG+".Frame.Hash"), 0) && depOnParamType(v, "Frame") }
+		isH := func(v ssa.Value) bool {
+			return flowsFromCall(v, named(HG+".Frame.Hash"), 0) && depOnParamType(v, "Frame")
+		}
 		return (isFH(x) && isH(y)) || (isFH(y) && isH(x))
 	}, 1)
 	var actions []ssa.Instruction
@@ -145,7 +147,9 @@ func c12check(p *Prog, r *Report) {
 		isPH := func(v ssa.Value) bool {
 			return (flowsFromCall(v, named(HG+".Block.PeersHash"), 0) || flowsFromField(v, "PeersHash")) && depOnParamType(v, "Block")
 		}
-		isSet := func(v ssa.Value) bool { return flowsFromCall(v, named(PEER+".PeerSet.Hash"), 0) && depOnParamType(v, "PeerSet") }
+		isSet := func(v ssa.Value) bool {
+			return flowsFromCall(v, named(PEER+".PeerSet.Hash"), 0) && depOnParamType(v, "PeerSet")
+		}
 		return (isPH(x) && isSet(y)) || (isPH(y) && isSet(x))
 	}, 1)
 	var counters []ssa.Value
@@ -375,7 +379,6 @@ func c14known(p *Prog, r *Report) {
 			"signatures are counted against peers.NewPeerSet(frame.Peers), a set taken from the response itself; docs/fastsync.rst says 'against the known set of validators'. A single responder can ship a self-made validator set signed by itself")
 	}
 }
-
 
 // C14.source: who can be the responder at all.
 func c14source(p *Prog, r *Report) {
